@@ -73,20 +73,26 @@ def sector_mask(sp, N, n):
 # ------------------------------------------------------------------------------------------------------------------
 
 def _bond_legs(psi):
-    """Unified bond legs: list of N+1 legs with signature +1 (as seen from the tensor on the left)."""
+    """Bond legs (signature as seen from the tensor on the left). Returns (right_of_site, left_of_site): with a central block
+    on a bond the space to the left of the block differs from the space to its right."""
     N = psi.N
-    legs = []
+    right_of, left_of = [None] * (N + 1), [None] * (N + 1)      # index b: bond between sites b-1 and b
     for b in range(N + 1):
-        cand = []
+        has_c = psi.pC is not None and psi.pC == (b - 1, b)
+        cl, cr = [], []
         if b > 0:
-            cand.append(psi.A[b - 1].get_legs(2))
+            cl.append(psi.A[b - 1].get_legs(2))
         if b < N:
-            cand.append(psi.A[b].get_legs(0).conj())
-        if psi.pC is not None and psi.pC == (b - 1, b):
-            cand.append(psi.A[psi.pC].get_legs(0).conj())
-            cand.append(psi.A[psi.pC].get_legs(1))
-        legs.append(yastn.legs_union(*cand) if len(cand) > 1 else cand[0])
-    return legs
+            cr.append(psi.A[b].get_legs(0).conj())
+        if has_c:
+            cl.append(psi.A[psi.pC].get_legs(0).conj())
+            cr.append(psi.A[psi.pC].get_legs(1))
+            right_of[b] = yastn.legs_union(*cl) if len(cl) > 1 else cl[0]
+            left_of[b] = yastn.legs_union(*cr) if len(cr) > 1 else cr[0]
+        else:
+            u = cl + cr
+            right_of[b] = left_of[b] = yastn.legs_union(*u) if len(u) > 1 else u[0]
+    return right_of, left_of
 
 
 def _chain(out, A, nr_phys):
@@ -101,16 +107,19 @@ def _chain(out, A, nr_phys):
 def mps_dense(psi, sp):
     out = None
     N = psi.N
-    bl = _bond_legs(psi)
+    ro, lo = _bond_legs(psi)
     for n in range(N):
-        lg = {0: bl[n].conj(), 1: sp.leg if psi.A[n].get_legs(1).s == 1 else sp.leg.conj(), 2: bl[n + 1]}
+        lg = {0: lo[n].conj(), 1: sp.leg if psi.A[n].get_legs(1).s == 1 else sp.leg.conj(), 2: ro[n + 1]}
         if psi.nr_phys == 2:
             lg[3] = sp.leg.conj() if psi.A[n].get_legs(3).s == -1 else sp.leg
         A = psi.A[n].to_numpy(legs=lg)
         if psi.pC is not None and psi.pC == (n - 1, n):
-            Cm = psi.A[psi.pC].to_numpy(legs={0: bl[n].conj(), 1: bl[n]})
+            Cm = psi.A[psi.pC].to_numpy(legs={0: ro[n].conj(), 1: lo[n]})
             A = np.tensordot(Cm, A, axes=(1, 0))
         out = _chain(out, A, psi.nr_phys)
+    if psi.pC is not None and psi.pC == (N - 1, N):     # central block beyond the last site
+        Cm = psi.A[psi.pC].to_numpy(legs={0: ro[N].conj(), 1: lo[N]})
+        out = np.tensordot(out, Cm, axes=(out.ndim - 1, 0))
     if out.size == 0:      # some site tensor has no block at all: the zero state / operator
         return np.zeros(sp.d ** N if psi.nr_phys == 1 else (sp.d ** N, sp.d ** N), dtype=out.dtype)
     if out.shape[0] != 1 or out.shape[-1] != 1:
